@@ -51,3 +51,12 @@ Definition model (n : nat) (init : Z) (amounts : list Z) : V :=
 Definition multis (progs : list (list instr)) (ms : list (list Z)) (stk : list Z) (scheds : list (list nat)) : V :=
   VL (map (multi progs ms stk) scheds).
 Definition models (n : nat) (init : Z) (amounts : list Z) (k : nat) : V := VL (repeat (model n init amounts) k).
+
+(* the same for XDP programs: every instance has a packet of its own (the shared memory is the map) *)
+Definition multi_p (progs : list (list instr)) (pk : list Z) (ms : list (list Z)) (stk : list Z) (sched : list nat) : V :=
+  let xs := map (fun p => {| i_prog := p; i_state := with_stack (init_state pk ms []) stk; i_status := Running; i_pc := 0%nat |}) progs in
+  let '(gm, xs') := run_sched sched ms xs in
+  let '(gm', xs'') := finish_all gm xs' in
+  VL [VL (map VB gm'); VL (map (fun x => v_status (i_status x)) xs'')].
+Definition multis_p (progs : list (list instr)) (pk : list Z) (ms : list (list Z)) (stk : list Z) (scheds : list (list nat)) : V :=
+  VL (map (multi_p progs pk ms stk) scheds).
